@@ -21,7 +21,7 @@ RULE = ('statements = generated SELECTs (expressions, every join kind, derived t
 ASSUMPTIONS = ['sqlite3 3.40 is the reference engine; the original text is itself executable on it',
                '`/` is generated only with a REAL operand (SQLAlchemy renders true division; integer division is dialect-defined)',
                'FOR UPDATE and other non-row-level differences are not judged; unsupported shapes (NotImplementedError/SQLAlchemyError) are C17\'s business']
-BUDGET = {'quick': (8, 90), 'thorough': (16, 600)}
+BUDGET = {'quick': (8, 270), 'thorough': (16, 1800)}
 TARGETS = ('sqlite', 'mysql', 'postgresql')
 
 
